@@ -174,4 +174,11 @@ theorem C30_gen_bodies :
        "s.LastIrreversibleHeight = s.DPOSStartHeight", "s.DPOSStartHeight = oriDPOSStartHeight"] := by
   refine ⟨by decide, by decide, by decide⟩
 
+/-- a restart from a checkpoint keeps the recorded height (and the other three fields), and nothing of the
+    time before it can be rolled back afterwards -/
+theorem C30_reload (h : Hist) (k : Nat) : (reload h).st = h.st ∧ rollbackTo (reload h) k = reload h := by
+  constructor
+  · rfl
+  · simp [reload, rollbackTo]
+
 end ElaVerif.C30
